@@ -176,7 +176,16 @@ def check(prop, tier):
     ev.cov["exhaustive_part"] = "all programs of length <= %s (text/array/map/xml) over the model's alphabet" % json.dumps(plan["exh"])
     ev.cov["harness_build_s"] = round(bt, 1)
     ev.assumptions = ["TLC, CommunityModules", "harness adapter seqapi.rs (one API call per abstract call; accessor dump through the public API only)"]
-    rc = vlib.report(prop, ev, [r], PREFIXES[prop])
+    results = [r]
+    # rich text under replication (spec/Rich.tla, yata engine): C17_DiffRender (diff chunks with attributes = Render of the
+    # recorded structure on every replica after every step), C17_PubAgrees, and C03_RichSequential (format / insert / delete
+    # on the rendered attributes in replicated states: tombstones and concurrent marks around the edited range)
+    import yata_pipe
+    vlib.build_harness("yx")
+    rr = yata_pipe.run_all(tier, wd, kind="rich")
+    results.append(rr)
+    yata_pipe.add_rich_evidence(ev, rr)
+    rc = vlib.report(prop, ev, results, PREFIXES[prop])
     ev.write()
     return rc
 
